@@ -171,6 +171,8 @@ def task_pack_unpack(ctx):
     # every unordered pair of shell patterns from a grid that contains equal orbital counts with different composition
     # ((1,4) and (2,0): 8 orbitals), no hydrogens, no heavy atoms, equal patterns
     grid = [(1, 4), (2, 0), (1, 2), (0, 2), (2, 1), (1, 0), (0, 4)]
+    if ctx.tier != "quick":
+        grid += [(3, 0), (2, 4), (1, 8), (0, 1), (3, 2), (2, 2), (0, 8)]  # more equal-count/different-composition pairs: (3,0)/(2,4)/(1,8): 12 orbitals; (2,0)/(1,4)/(0,8): 8
     cases = []
     for a in range(len(grid)):
         for b in range(a, len(grid)):
